@@ -78,6 +78,7 @@ func runC08(c *Ctx) {
 	ruleSaveFinished(c, "R8.6")
 	ruleFailurePath(c, "R8.7")
 	ruleStateAccessUnderLock(c, "R8.8")
+	ruleSeenPacketsOnlyGrow(c, "R8.9")
 }
 
 // R8.1 -------------------------------------------------------------------------------------------
@@ -825,4 +826,39 @@ func ruleStateAccessUnderLock(c *Ctx, rule string) {
 		}
 	}
 	c.Floor(rule, "state store accesses on the command and packet paths", n, 6)
+}
+
+// R8.9: the set of gossip packets already applied only grows. After a failed or aborted attempt the state machine applies
+// packets to the last finished state again, against which the (still unexpired, validly signed) proposal of the dead
+// attempt is legal once more; only the memory that the packet was already seen keeps a late echo or a replay from
+// resurrecting it.
+func ruleSeenPacketsOnlyGrow(c *Ctx, rule string) {
+	c.ranRules[rule] = true
+	nW := 0
+	for _, fn := range c.P.SubjectFns() {
+		if isControlFn(fn) || fnPkgPath(fn) != modPath+"/internal/dkg" {
+			continue
+		}
+		forEachInstr(fn, func(_ *ssa.BasicBlock, _ int, in ssa.Instruction) {
+			switch x := in.(type) {
+			case *ssa.Store:
+				if fa, ok := x.Addr.(*ssa.FieldAddr); ok && typeShort(fa.X.Type()) == "internal/dkg.Process" && fieldName(fa.X.Type(), fa.Field) == "SeenPackets" {
+					nW++
+					c.Ok(rule, fnShort(fn)+" assigns Process.SeenPackets", shortPos(c.P, in), isFreshObject(fa.X), "the set is created once, with the process; replacing it later forgets every packet seen so far")
+				}
+			case *ssa.MapUpdate:
+				if loadsField(x.Map, "internal/dkg.Process", "SeenPackets") {
+					nW++
+					k, isK := x.Value.(*ssa.Const)
+					c.Ok(rule, fnShort(fn)+" records a packet in Process.SeenPackets", shortPos(c.P, in), isK && k.Value != nil && k.Value.ExactString() == "true", "entries are only ever set to true")
+				}
+			case *ssa.Call:
+				if b, ok := x.Common().Value.(*ssa.Builtin); ok && (b.Name() == "delete" || b.Name() == "clear") && len(x.Common().Args) > 0 && loadsField(x.Common().Args[0], "internal/dkg.Process", "SeenPackets") {
+					nW++
+					c.Ok(rule, fnShort(fn)+" removes entries of Process.SeenPackets", shortPos(c.P, in), false, "a forgotten packet can be applied a second time")
+				}
+			}
+		})
+	}
+	c.Floor(rule, "writers of the seen-packets set", nW, 2)
 }
